@@ -37,7 +37,7 @@ PROFILES = {
 }
 
 PATCHES = {
-    "L": ["tokio", "ed25519-dalek", "async-recursion"],
+    "L": ["tokio", "ed25519-dalek", "async-recursion", "bincode"],
     "R": ["tokio", "ed25519-dalek", "async-recursion"],
     "S": ["tokio", "rocksdb"],
     "N": ["tokio", "tokio-util"],
@@ -167,7 +167,7 @@ def main():
             hp = os.path.join(HARNESS, h)
             if os.path.exists(hp):
                 relp = "../" * (rel.count("/")) + "_harness/" + h
-                extra += '\n#[cfg(kani)]\n#[path = "%s"]\nmod kani_%s;\n' % (relp, h[:-3])
+                extra += '\n#[cfg(kani)]\n#[path = "%s"]\npub(crate) mod kani_%s;\n' % (relp, h[:-3])
                 report["attached"].append((rel, h))
         if extra:
             with open(p, "a") as f:
